@@ -107,6 +107,14 @@ def _call_value(self, callee, pos, kw, node, fr, star=None, dstar=None):
         return self.call_external(ca.args[0], pos, kw, node, fr)
     if ca.kind == 'builtin':
         return self.call_builtin(ca.args[0], pos, kw, node, fr)
+    if ca.kind == 'sym' and ca.args[0] == 'SEQ' and len(pos) == 3:
+        return mk_seq(*pos)
+    if ca.kind == 'sym' and ca.args[0] == 'ITE' and len(pos) == 3:
+        return T.mk_ite(*pos)
+    if ca.kind == 'sym' and ca.args[0] == 'CALL' and pos:
+        return T.mk_call(pos[0].single_atom().args[0], pos[1:], kw)
+    if ca.kind == 'sym' and ca.args[0] == 'SYM' and len(pos) == 1:
+        return sym(pos[0].single_atom().args[0])
     if ca.kind == 'sym' and isinstance(self.frames[-1].fi.node, (ast.FunctionDef, ast.Lambda)):
         # a parameter holding a user-supplied callable
         self.emit('call', node, fr, name='<param:' + ca.args[0] + '>', resolved=None, args=pos, kwargs=kw,
